@@ -2,6 +2,7 @@ package main
 
 import (
 	"bytes"
+	"context"
 	"flag"
 	"fmt"
 	"os"
@@ -104,6 +105,7 @@ type c15Pkg struct {
 	NFiles  int
 	Grouped map[int]bool // spec index -> starts a `var ( ... )` group with the next spec
 	Blank   map[int]bool // variable ids written `_` in the source (a fresh id each: nothing can refer to them)
+	Shape   map[int]int  // variable id -> form of its initialiser expression (c15Shapes); rendering only, absent from the model
 }
 
 type c15Prog struct {
@@ -713,6 +715,7 @@ func (g *c15Gen) body(mode c15Mode, nSpecs int) *c15Pkg {
 		}
 	}
 	p.blankSymbol()
+	g.shapes(p)
 	// 5. files, groups, init functions
 	p.NFiles = 1
 	if r.chance(45) {
@@ -1031,6 +1034,10 @@ func (g *c15Gen) program(mode c15Mode, multiPkg, shufflePkgs bool) *c15Prog {
 		prog.Pkgs = append(prog.Pkgs, p)
 	}
 	m := g.bodyFor(mode, 5+r.intn(8))
+	if (mode == c15MainSorted || mode == c15MainPlain) && r.chance(18) {
+		// a package without package-level variables: only functions, init functions, main
+		m = &c15Pkg{NFiles: 1 + r.intn(2)*r.intn(2), Grouped: map[int]bool{}, Blank: map[int]bool{}, Shape: map[int]int{}}
+	}
 	m.ID, m.Main = 90, true
 	g.decls(m)
 	prog.Entry = 90
@@ -1225,10 +1232,11 @@ func c15PkgName(id int) string { return fmt.Sprintf("p%02d", id) }
 func (p *c15Pkg) refExpr(r c15Ref) string {
 	switch r.K {
 	case 'V':
+		sel := c15Shapes[p.Shape[r.ID]].sel
 		if r.Style == 1 {
-			return fmt.Sprintf("func() int { return v%d }()", r.ID)
+			return fmt.Sprintf("func() int { return v%d%s }()", r.ID, sel)
 		}
-		return fmt.Sprintf("v%d", r.ID)
+		return fmt.Sprintf("v%d%s", r.ID, sel)
 	case 'N':
 		return fmt.Sprintf("s%d{}.v%d", r.ID, r.ID)
 	case 'X':
@@ -1274,10 +1282,85 @@ func (p *c15Pkg) vnames(ns []int) string {
 	return strings.Join(l, ", ")
 }
 
+// Forms of the initialiser of `var x = e` around the logging call: the mark must be printed at x's place in the order
+// whatever the syntactic form of e (the ordering code looks at node kinds) and whatever x's type.
+var c15Shapes = []struct {
+	name, typ, open, close, sel string
+	zeroSafe                    bool // reading x before its initialisation (possible under yaegi's known defects) does not panic
+}{
+	{"call", "int", "", "", "", true},
+	{"struct literal", "W", "W{", "}", ".X", true},
+	{"keyed struct literal", "W", "W{X: ", "}", ".X", true},
+	{"slice literal", "[]int", "[]int{", "}", "[0]", false},
+	{"array literal", "[1]int", "[1]int{", "}", "[0]", true},
+	{"map literal", "map[string]int", "map[string]int{\"k\": ", "}", "[\"k\"]", true},
+	{"pointer to struct literal", "*W", "&W{", "}", ".X", false},
+	{"parenthesised call", "int", "(", ")", "", true},
+	{"binary expression", "int", "", " + 0", "", true},
+	{"conversion", "int", "int(", ")", "", true},
+	{"call of a function literal", "int", "func() int { return ", " }()", "", true},
+	{"nested composite literal", "[]W", "[]W{{", "}}", "[0].X", false},
+}
+
+// shapes gives every `var x = e` (one variable) of the package a form; forms whose zero value cannot be read are kept
+// for variables that nothing refers to.
+func (g *c15Gen) shapes(p *c15Pkg) {
+	p.Shape = map[int]int{}
+	used := map[int]bool{}
+	for _, s := range p.Specs {
+		for _, in := range s.Inits {
+			for _, r := range in.Refs {
+				if r.K == 'V' {
+					used[r.ID] = true
+				}
+			}
+		}
+	}
+	for _, f := range p.Funcs {
+		for _, r := range f.Refs {
+			if r.K == 'V' {
+				used[r.ID] = true
+			}
+		}
+	}
+	nBlankDecls := 0
+	for _, s := range p.Specs {
+		for _, n := range s.Names {
+			if p.Blank[n] {
+				nBlankDecls++
+				break
+			}
+		}
+	}
+	for _, s := range p.Specs {
+		if s.Kind != c15Pair || len(s.Names) != 1 || g.r.chance(45) {
+			continue
+		}
+		// Several blank variables of different types in one package make yaegi panic in the host (reflect.Set: value of
+		// type []int is not assignable to type int): they share one symbol `_`, hence one typed slot. Same root cause as
+		// finding C15-blank-shared, not an ordering matter and not predictable by Y: such blanks keep the plain form.
+		if p.Blank[s.Names[0]] && nBlankDecls > 1 {
+			continue
+		}
+		sh := 1 + g.r.intn(len(c15Shapes)-1)
+		if !c15Shapes[sh].zeroSafe && used[s.Names[0]] {
+			sh = 1 + g.r.intn(2)
+		}
+		p.Shape[s.Names[0]] = sh
+	}
+}
+
 func (p *c15Pkg) specText(s c15Spec) string {
 	typ := ""
 	if s.Typed {
 		typ = " int"
+	}
+	if s.Kind == c15Pair && len(s.Names) == 1 && p.Shape[s.Names[0]] != 0 {
+		sh := c15Shapes[p.Shape[s.Names[0]]]
+		if s.Typed {
+			typ = " " + sh.typ
+		}
+		return p.vnames(s.Names) + typ + " = " + sh.open + p.initExpr("lg", s.Inits[0]) + sh.close
 	}
 	switch s.Kind {
 	case c15NoInit:
@@ -1323,7 +1406,7 @@ func (p *c15Pkg) files(prefix string) map[string]string {
 			fmt.Fprintf(&b, "func use%d_%d() int { return %s.Touch() }\n", u, f, c15PkgName(u))
 		}
 		if f == 0 {
-			b.WriteString("type T struct{}\n\n")
+			b.WriteString("type T struct{}\n\ntype W struct{ X int }\n\n")
 			b.WriteString("func lg(id int, deps ...int) int { fmt.Print(id, \" \"); return id }\n")
 			b.WriteString("func lg2(id int, deps ...int) (int, int) { fmt.Print(id, \" \"); return id, id }\n")
 			b.WriteString("func lg3(id int, deps ...int) (int, int, int) { fmt.Print(id, \" \"); return id, id, id }\n")
@@ -1546,6 +1629,79 @@ func c15RunPath(files map[string]string, prefix string, timeout time.Duration) (
 	}
 }
 
+// History of the interpreter before the program is evaluated: the order of initialisation must not depend on it.
+var c15Histories = []string{"fresh interpreter", "after a successful evaluation", "after an evaluation cancelled by its context",
+	"after an evaluation that does not compile", "after an evaluation that panicked"}
+
+// c15RunHistory evaluates the program (Eval of the single file, or EvalPath on the MapFS tree) on an interpreter with
+// the given history. No real-time bound matters: the cancelled evaluation is started with a context that is already
+// cancelled.
+func c15RunHistory(files map[string]string, prefix string, viaPath bool, hist int, timeout time.Duration) (res outcome) {
+	mfs := fstest.MapFS{}
+	for fn, src := range files {
+		mfs["src/"+prefix+"/"+fn] = &fstest.MapFile{Data: []byte(src)}
+	}
+	var stdout, stderr bytes.Buffer
+	done := make(chan outcome, 1)
+	go func() {
+		var r outcome
+		defer func() {
+			if p := recover(); p != nil {
+				r.Stdout = stdout.String()
+				r.End = "host-crash:" + fmt.Sprint(p)
+			}
+			done <- r
+		}()
+		i := interp.New(interp.Options{GoPath: ".", SourcecodeFilesystem: mfs, Stdout: &stdout, Stderr: &stderr})
+		if err := i.Use(stdlib.Symbols); err != nil {
+			r.End = "host-crash:use:" + err.Error()
+			return
+		}
+		switch hist {
+		case 1:
+			if _, err := i.Eval("1 + 1"); err != nil {
+				r.End = "host-crash:prelude:" + err.Error()
+				return
+			}
+		case 2:
+			// An evaluation whose context is already cancelled: EvalWithContext stops the interpreter (the run id
+			// advances) and returns; the evaluation itself is trivial, so its goroutine has nothing left to do when the
+			// program is evaluated next (an evaluation that blocks or loops would still be winding down concurrently).
+			ctx, cancel := context.WithCancel(context.Background())
+			cancel()
+			i.EvalWithContext(ctx, "1 + 1")
+			time.Sleep(20 * time.Millisecond)
+		case 3:
+			if _, err := i.Eval("func ("); err == nil {
+				r.End = "host-crash:prelude: syntax error accepted"
+				return
+			}
+		case 4:
+			if _, err := i.Eval("panic(1)"); err == nil {
+				r.End = "host-crash:prelude: panic not reported"
+				return
+			}
+		}
+		stdout.Reset()
+		var err error
+		if viaPath {
+			_, err = i.EvalPath(prefix)
+		} else {
+			ctx, cancel := context.WithTimeout(context.Background(), timeout)
+			defer cancel()
+			_, err = i.EvalWithContext(ctx, files["a.go"])
+		}
+		r.Stdout = stdout.String()
+		r.End = yaegiEnd(err)
+	}()
+	select {
+	case r := <-done:
+		return r
+	case <-time.After(timeout + 10*time.Second):
+		return outcome{Stdout: stdout.String(), End: "timeout"}
+	}
+}
+
 // ---------------------------------------------------------------- driver
 
 func runC15(args []string) error {
@@ -1580,6 +1736,7 @@ func runC15(args []string) error {
 		yaegi   c15Obs
 		ref     c15Obs
 		viaPath bool
+		hist    int
 	}
 	cases := make([]*c15Case, n)
 	wit := c15Witnesses()
@@ -1623,6 +1780,12 @@ func runC15(args []string) error {
 		}
 		c.region = c.prog.region()
 		c.files = c.prog.sources("ref/" + c.name)
+		if g.r.chance(55) {
+			c.hist = 1 + g.r.intn(len(c15Histories)-1)
+			if g.r.chance(40) {
+				c.hist = 2
+			}
+		}
 		cases[i] = c
 	}
 
@@ -1644,6 +1807,13 @@ func runC15(args []string) error {
 			r = c15RunPath(c.files, "ref/"+c.name, 30*time.Second)
 		}
 		c.yaegi = c15Observe(r, c15Loop)
+		if c.yaegi.Odd == "" && c.hist != 0 {
+			// the same program on an interpreter with a history must be initialised in the same order
+			r2 := c15RunHistory(c.files, "ref/"+c.name, c.viaPath, c.hist, 30*time.Second)
+			if o2 := c15Observe(r2, c15Loop); o2.key() != c.yaegi.key() {
+				c.yaegi = c15Obs{Odd: "fresh interpreter vs " + c15Histories[c.hist] + ": " + c.yaegi.key() + " / " + r2.End + " stdout=" + r2.Stdout}
+			}
+		}
 	})
 
 	// reference: compiled Go, in batches
@@ -1684,8 +1854,35 @@ func runC15(args []string) error {
 		if !c.yaegi.OK {
 			sm.count("yaegi:rejected-or-odd")
 		}
+		{
+			vars := "with package variables"
+			if len(c.prog.find(c.prog.Entry).Specs) == 0 {
+				vars = "without package variables"
+				for _, d := range c.prog.find(c.prog.Entry).Decls {
+					if d.Kind == 'V' {
+						vars = "with package variables"
+					}
+				}
+			}
+			via := "Eval"
+			if c.viaPath {
+				via = "EvalPath"
+			}
+			sm.count("history:" + c15Histories[c.hist] + ", entry package " + vars + ", " + via)
+		}
 		seenKinds := map[string]bool{}
 		for _, p := range c.prog.Pkgs {
+			for v, sh := range p.Shape {
+				st := "main stream"
+				if c.region != "" {
+					st = "region streams"
+				}
+				at := "first"
+				if len(p.Specs) > 0 && p.Specs[0].Names[0] != v {
+					at = "after other declarations"
+				}
+				seenKinds["init-form:"+c15Shapes[sh].name+", "+at+", "+st] = true
+			}
 			nb := 0
 			for _, s := range p.Specs {
 				b := 0
@@ -1788,7 +1985,7 @@ func runC15(args []string) error {
 	}
 	sm.DistinctNontriv = len(distinct)
 	sm.Rule = "seeded random programs: 5-12 package-level var specs in the entry package (2-5 in imported ones) with direct references, references through 1-4 function/method bodies " +
-		"(calls, function values, method values and expressions, recursion), var x, y = f(), var x, y = e1, e2, variables without initialiser, misleading identifiers (shadowing parameters, struct keys), explicit types (var x int = e), blank variables (var _ = e, var _ int = e, blanks inside var x, _ = e1, e2 and var _, x = f(), several declarations with blanks), " +
+		"(calls, function values, method values and expressions, recursion), var x, y = f(), var x, y = e1, e2, variables without initialiser, misleading identifiers (shadowing parameters, struct keys), explicit types (var x int = e), forms of the initialiser expression around the logging call (struct, keyed, slice, array, map, nested composite literals, pointer to a literal, parentheses, binary expression, conversion, call of a function literal; the variable then has that type and is read through the matching selector or index), blank variables (var _ = e, var _ int = e, blanks inside var x, _ = e1, e2 and var _, x = f(), several declarations with blanks), " +
 		"1-3 files, 0-4 init functions per package spread over the files, main, look-alikes of the special names (methods init/main/Init with value and pointer receivers, func Init, func main and var main = func in non-main packages, package variables holding function literals, locals and struct fields named init/main, local function literals named init/main, helpers and methods called from init functions and main), 0-3 imported source packages; every initialiser prints a mark; distinct = distinct source text (program name removed); " +
 		"non-trivial = more than one package, or a package that is not already in dependency order, or that has functions"
 	return sm.write(*out)
